@@ -527,6 +527,7 @@ def step (s : St) (op : Op) : St × Out :=
     ({ s with d := r.1 }, r.2)
   | .hash msg h => (s, dispatchHash s.d msg h)
   | .hashFrag frags h => (s, dispatchHashFrag s.d frags h)
+  | .hashNone => (s, (nestedCall s.d none ⟨0, false⟩).1)      -- `mpt_dispatch_hash` with `ev->msg = NULL`: "missing message data"
   | .reserve w =>
     let r := commandReserve s.d.tab w
     match r.2 with
